@@ -289,6 +289,9 @@ def gen_any_ops(rng, tier, acc=False, basins=False):
                               ["single", "snap:a:g", "mst:k:carve"]])
         single_final = not any(o.startswith("multi") for o in ops)
         lines = _flow_scn(rng, g, ops, n_updates=rng.randint(1, 3), acc=acc, basins=basins and single_final)
+        if acc:
+            # the cell areas accumulate integrates over are judged too (C03: "times the cell area")
+            lines.insert(1, "grid_common")
         if any(o.startswith("snap:a") for o in ops):
             # the snapshot graph is a flow graph too: accumulate / basins on it after every update
             lines2 = []
@@ -361,7 +364,7 @@ register("C02", lean_modules=["FsModel.SpillCheck", "FsProofs.Properties.SpillCh
          rule="same scenario family as C01; oracle = independent Bellman minimax spill level; non-trivial = some node raised",
          trusted_base=FLOW_TB)
 register("C03", lean_modules=["FsProofs.Properties.ClosedC03", "FsProofs.Properties.ShapesC03", "FsProofs.Properties.C03", "FsProofs.Properties.C03Cons", "FsProofs.Properties.C03E2E", "FsProofs.Properties.Closed"], theorems=["Fs.Closed.grid_C03_resolve", "Fs.Closed.resolve_rweight", "Fs.Shapes.source_shape_C03", "Fs.C03.multi_accumulate_recurrence", "Fs.C03.multi_accumulate_conservation", "Fs.C03.multi_accumulate_nonneg", "Fs.C03.single_accumulate_recurrence", "Fs.C03.single_accumulate_conservation", "Fs.C03.single_accumulate_nonneg", "Fs.Closed.raster_C03_multi_conservation", "Fs.Closed.raster_C03_single_conservation", "Fs.C03.accumulate_recurrence", "Fs.C03.sweep_recurrence", "Fs.C03.accStep_get", "Fs.C03.contrib_nonneg", "Fs.C03.sweep_conservation", "Fs.C03.accumulate_conservation"],
-         gen=lambda r, t: gen_any_ops(r, t, acc=True), oracles=[oracle.c03], sections={"acc", "acc_overloads_agree"},
+         gen=lambda r, t: gen_any_ops(r, t, acc=True), oracles=[oracle.c03, oracle.c03_areas, oracle.c18], sections={"acc", "acc_overloads_agree", "area"},
          nontrivial=has_pits_or_multi, tags=tags_flow,
          rule="routed graphs of all operator families x scalar/array sources (negative values included); exact-rational recurrence and conservation on the implementation's doubles; non-trivial = graph has a confluence or multiple receivers",
          trusted_base=FLOW_TB + ["accumulation theorems are over exact arithmetic (commutative ring); rounding is covered only by the bit-exact correspondence and the rational oracle with an error bound"])
